@@ -4,6 +4,7 @@ import CprocVerif.Props.C02
 import CprocVerif.Props.C03
 import CprocVerif.Props.C04
 import CprocVerif.Props.C05
+import CprocVerif.Props.C06
 import CprocVerif.Props.C07
 import CprocVerif.Props.C09
 import CprocVerif.Props.C13
